@@ -839,6 +839,17 @@ def r3_lib(ck, L):
         return
     problems = []
     n = 0
+    # the same thing delegated to Span::in_scope(|| inner.poll(cx)): in_scope holds the guard across its closure and exits on
+    # unwinding (that is C03.R5's rule for Span::in_scope)
+    for bb, t in b.calls():
+        if t["callee"].get("path") == "tracing::span::Span::in_scope" and len(t["argv"]) == 2:
+            o = b.origin(t["argv"][1])
+            cd = o[1].get("agg", {}).get("closure") if o[0] == "agg" else (o[1].get("closure") if o[0] == "const" else None)
+            cb = L.body(cd) if cd else None
+            if cb is not None and any(ct["callee"].get("method") == "poll" and ct["callee"].get("trait") == "core::future::future::Future" for cbb, ct in cb.calls()) \
+                    and b.postdominates(bb, 0):
+                ck.ok("C17.R3", key, fn=b.path, detail="through Span::in_scope (guard lifetime decided by C03.R5)")
+                return
     ev = PathEval(b, unwind=True)
     for p in ev.run():
         if p.end not in ("return", "resume"):
